@@ -4,10 +4,12 @@ dimension in every run.  Two kinds:
 * MODELLED cases (plain scenario JSON of _transfer_common): they go through the correspondence with
   Model/Transfer.v like every other scenario;
 * ORACLE-ONLY cases ("oracle_only": reason in the case JSON): dimensions Model/Transfer.v does not
-  cover (a swallowed FileExistsError, faults in the existence query, a raising validate_status, a
-  read-only destination, mixed hash names, real hard links, a directory at an object's path, the
-  memfs staging source of hashfile.build).  They run on the real code and are judged by the same
-  C04/C11 oracles; no correspondence item is produced for them.
+  cover (a contract-honouring FileExistsError, faults in the existence query, a raising
+  validate_status, a read-only destination, real hard links, the memfs staging source of
+  hashfile.build).  They run on the real code and are judged by the same C04/C11 oracles; no
+  correspondence item is produced for them.
+* OBSERVATIONS ("observation": name): inputs the checks deliberately do NOT judge (the lead's ruling);
+  they are run in every tier and what the real code did is recorded in coverage.observations.
 """
 
 from __future__ import annotations
@@ -144,8 +146,9 @@ def flag_cases(prop):
 def position_cases(ctx, prop):
     """one failing upload at the FIRST, a MIDDLE and the LAST position of the batch and on the directory
     object's own upload, for the error kinds EIO / PermissionError (modelled), FileNotFoundError (the
-    source object vanishes; modelled) and FileExistsError (ORACLE-ONLY: dvc_objects swallows it for the
-    first upload of a batch)"""
+    source object vanishes; modelled) and a contract-honouring FileExistsError (the wrapper places the genuine
+    object under the final name, then raises; ORACLE-ONLY: dvc_objects skips it at the first position of a batch
+    and routes it to on_error elsewhere - reported failed although present, which the oracles allow)"""
     ups, _ = TC.probe_round(ctx, _base(prop))
     files = [u for u in ups if not TC.is_dir(u)]
     where = {"first": files[0], "middle": files[1], "last": files[-1], "dir": "d0.dir"}
@@ -161,9 +164,9 @@ def position_cases(ctx, prop):
             if kind == "enoent":
                 first = {"fails": [], "vanish": [tok], "crash": None, "reset": True}
             else:
-                case["fail_kind"] = kind
+                case["fail_kind"] = "eexist-honest" if kind == "eexist" else kind
             if kind == "eexist":
-                case["oracle_only"] = "injected FileExistsError: the model has no swallowed failure"
+                case["oracle_only"] = "FileExistsError with the object in place: the model has no such event"
             case["rounds"] = [first, {"fails": [], "crash": None, "reset": False}]
             out.append((case, ["fault-position:%s@%s" % (kind, pos)]))
     return out
@@ -191,23 +194,75 @@ def oracle_only_cases(prop):
                          rounds=[{"fails": [], "crash": None, "reset": True}]))
         out.append(_base(prop, dst_cls=cls, read_only_dst=True, dst={t: None for t in REQ4},
                          oracle_only=why + "read-only destination", rounds=[{"fails": [], "crash": None, "reset": True}]))
-    # a request mixing the hash names md5 and md5-dos2unix for a store whose hash_name is md5
-    out.append(_base(prop, req_names={"f0": "md5-dos2unix", "f3": "md5-dos2unix"}, oracle_only=why + "mixed hash names",
-                     rounds=[{"fails": ["f3"], "crash": None, "reset": True}, {"fails": [], "crash": None, "reset": False}]))
-    out.append(_base(prop, req_names={"d0.dir": "md5-dos2unix"}, shallow=False, req=["d0.dir"], dst_cls="base",
-                     oracle_only=why + "mixed hash names"))
     # REAL hard links: both stores on a plain LocalFileSystem, hardlink=True, corrupt protected source object
     srot = {t: None for t in list(F5) + list(D4)}
     srot["f1"] = hx(b"beta#bitrot")
+    sok = {t: None for t in list(F5) + list(D4)}
     for cls, verify, dst in (("local", False, {}), ("local", True, {"f0": None}), ("base", False, {"f3": None}),
                              ("base", True, {})):
-        out.append(_base(prop, dst_cls=cls, verify=verify, hardlink=True, plain_dst=True, src=srot, dst=dst,
+        # (the corrupt protected source stays out of the judged local-class cases: see observation_cases)
+        out.append(_base(prop, dst_cls=cls, verify=verify, hardlink=True, plain_dst=True,
+                         src=srot if cls == "base" else sok, dst=dst,
                          oracle_only=why + "real hard links (no fault injection, no per-attempt snapshots)"))
-    # a DIRECTORY at a requested object's path
+    return out
+
+
+# ---------------------------------------------------------------------------------------------
+# OBSERVATIONS: unjudged inputs, (case, name, what is known about the real code's behaviour)
+
+
+OBSERVATIONS = {
+    "FileExistsError-without-object":
+        "An upload raises FileExistsError although nothing is under the final name (a violation of that "
+        "exception's own contract): dvc_objects.fs.generic.transfer takes the first upload of a batch for "
+        "'already exists, skipping', so the id is neither failed nor present and its directory object is sent.",
+    "directory-at-object-path":
+        "A DIRECTORY sits at a requested object's path in the destination (a layout no dvc-data operation "
+        "produces): LocalHashFileDB status raises IsADirectoryError; a base-class store reports the upload "
+        "failed when copying, and with hardlink=True takes os.link's FileExistsError for 'already there'.",
+    "hardlinked-protected-corrupt-source":
+        "hardlink=True, verify=True, LocalHashFileDB destination, corrupt source object with mode 0o444: the link "
+        "is born write-protected in the destination and LocalHashFileDB.check trusts it by mode (C07's stated "
+        "scope), so it is reported transferred without a re-hash.",
+    "mixed-hash-names":
+        "Requesting ids under the name md5-dos2unix from a store whose hash_name is md5 (caller misuse): those "
+        "HashInfos do not equal the tree's md5 entries, the files are not bound to their directory and are "
+        "uploaded after the directory object; a failed one appears both in transferred and failed.",
+}
+
+
+def observation_cases(ctx, prop):
+    ups, _ = TC.probe_round(ctx, _base(prop))
+    first = [u for u in ups if not TC.is_dir(u)][0]
+    out = []
+    for tok, cls in ((first, "local"), ("d0.dir", "base")):
+        out.append(_base(prop, dst_cls=cls, fail_kind="eexist", observation="FileExistsError-without-object",
+                         rounds=[{"fails": [tok], "crash": None, "reset": True}, {"fails": [], "crash": None, "reset": False}]))
     for cls, links in (("local", False), ("base", False), ("local", True), ("base", True)):
         kw = {"hardlink": True, "plain_dst": True} if links else {}
-        out.append(_base(prop, dst_cls=cls, dst_dir_at=["f1"], oracle_only=why + "a directory at an object's path", **kw))
+        out.append(_base(prop, dst_cls=cls, dst_dir_at=["f1"], observation="directory-at-object-path", **kw))
+    srot = {t: None for t in list(F5) + list(D4)}
+    srot["f1"] = hx(b"beta#bitrot")
+    out.append(_base(prop, dst_cls="local", verify=True, hardlink=True, plain_dst=True, src=srot,
+                     observation="hardlinked-protected-corrupt-source"))
+    out.append(_base(prop, req_names={"f0": "md5-dos2unix", "f3": "md5-dos2unix"}, observation="mixed-hash-names",
+                     rounds=[{"fails": ["f3"], "crash": None, "reset": True}, {"fails": [], "crash": None, "reset": False}]))
+    out.append(_base(prop, req_names={"d0.dir": "md5-dos2unix"}, shallow=False, req=["d0.dir"], dst_cls="base",
+                     observation="mixed-hash-names"))
     return out
+
+
+def run_observations(ctx, prop):
+    for case in observation_cases(ctx, prop):
+        S = TC.run_scenario(ctx, copy.deepcopy(case))
+        try:
+            TC.observe(ctx, S, case["observation"], OBSERVATIONS[case["observation"]])
+        finally:
+            S.close()
+
+
+OBSERVATION_ASSUMPTIONS = ["observation (run in every tier, NOT judged, recorded in coverage.observations) '%s': %s" % kv
+                           for kv in OBSERVATIONS.items()]
 
 
 # ---------------------------------------------------------------------------------------------
